@@ -79,6 +79,15 @@ CHECKS = {
             'plaintext, 60+ other sequence numbers, other keys must fail; after real handshakes duplicated, swapped and '
             'dropped application-data records must surface no byte at or after the fault.',
             '4/C11', TRUSTED),
+    'C12': ('exploration',
+            'sanitized execution with an independent on-curve / range predicate on Python integers applied to one value '
+            'set across every import path; read-back equality; compress/decompress identity',
+            'Raw coordinates, limbs, x-only, SEC1 octets (every prefix byte x lengths 1/2/32/33/34/64/65/66), BIT STRING and '
+            'SubjectPublicKeyInfo DER/PEM, certificate SPKI, sm2_ecdh peers (incl. the infinity octet), TLS 1.2 '
+            'Server/ClientKeyExchange, TLS 1.3 server/client key_share, ECPrivateKey / PKCS#8 with matching, foreign, '
+            'negated and invalid embedded public keys, scalars {0,1,n-3..n+1,2^256-1}, SM9 G1/G2 octets, signature S and '
+            'ciphertext C1: accept <=> coordinates < p, on curve, finite; private scalar accepted <=> 1 <= d <= n-2.',
+            '4/C12', TRUSTED),
     'C14': ('exploration',
             'sanitized execution with an independent strict-DER / PBKDF2 / SM4 reference: round trip with exact '
             'consumption, dry-run length vs bytes written into exactly-sized ASan blocks, accept => re-encodes identically, '
